@@ -736,6 +736,9 @@ pub struct Run<'a> {
     pub ticket: std::sync::atomic::AtomicUsize,
     /// switch index → number of cases on which it had a structural effect
     pub effect_counts: std::sync::Mutex<BTreeMap<usize, u64>>,
+    /// cases that ended inconclusive (worker failures, unreproduced differences) / all cases
+    pub inconclusive_cases: std::sync::atomic::AtomicUsize,
+    pub cases_seen: std::sync::atomic::AtomicUsize,
 }
 
 /// Known finding `dead_var_dce:port-value+needs[comb_fusion]`: with
@@ -865,7 +868,12 @@ pub fn one_case(run: &Run, d: &mut Draw) -> Outcome {
             case.classes.insert("excluded:dce_off_on_top_output_read_inside".into());
         }
     }
-    evaluate(run, &case, dce_excluded)
+    let out = evaluate(run, &case, dce_excluded);
+    run.cases_seen.fetch_add(1, std::sync::atomic::Ordering::Relaxed);
+    if matches!(&out, Outcome::Skip(r) if r.starts_with("inconclusive")) {
+        run.inconclusive_cases.fetch_add(1, std::sync::atomic::Ordering::Relaxed);
+    }
+    out
 }
 
 pub fn evaluate(run: &Run, case: &Case, dce_excluded: bool) -> Outcome {
@@ -1212,10 +1220,22 @@ pub fn run(ctx: &Ctx) {
         n_table,
         ticket: std::sync::atomic::AtomicUsize::new(0),
         effect_counts: std::sync::Mutex::new(BTreeMap::new()),
+        inconclusive_cases: std::sync::atomic::AtomicUsize::new(0),
+        cases_seen: std::sync::atomic::AtomicUsize::new(0),
     };
     ctx.run("designs", cfg, |d| one_case(&run, d));
     run.pool.shutdown();
     if !ctx.replay_mode() {
+        // systematic worker failures make the whole run inconclusive (never a pass)
+        let inc = run.inconclusive_cases.load(std::sync::atomic::Ordering::Relaxed);
+        let seen = run.cases_seen.load(std::sync::atomic::Ordering::Relaxed);
+        if inc > 8 && inc * 5 > seen {
+            println!("INCONCLUSIVE property=C03: {inc} of {seen} cases ended inconclusive (worker crashes / time-outs / differences that do not reproduce)");
+            use std::io::Write;
+            let _ = std::io::stdout().flush();
+            let _ = std::fs::remove_dir_all(aot_dir());
+            std::process::exit(2);
+        }
         // generator self-test: every pass of the property text must have fired somewhere
         let counts = run.effect_counts.lock().unwrap().clone();
         let mut per_pass: BTreeMap<&str, u64> = BTreeMap::new();
